@@ -409,7 +409,7 @@ func (e *Env) index(base, idx Val, ex Expr) Val {
 		if p, ok := base.Ty.Underlying().(*types.Pointer); ok {
 			if a, ok := p.Elem().Underlying().(*types.Array); ok {
 				es := sortOf(a.Elem())
-				h := e.heap(typeName(p.Elem())+".val", "(Array Int "+es+")")
+				h := e.heap(arrMemName(p.Elem()), "(Array Int "+es+")")
 				return term(sel(sel(h, base.T), idx.T), es, a.Elem())
 			}
 		}
@@ -715,7 +715,7 @@ func (e *Env) evalTargets(list []string) (ts []target, err error) {
 					lf := e.x.locFnFor(tn, f.Name(), f.Type())
 					ref := app(quote(lf.name), base.T)
 					a := f.Type().Underlying().(*types.Array)
-					ts = append(ts, target{array: typeName(f.Type()) + ".val", esort: "(Array Int " + sortOf(a.Elem()) + ")", ref: ref})
+					ts = append(ts, target{array: arrMemName(f.Type()), esort: "(Array Int " + sortOf(a.Elem()) + ")", ref: ref})
 				} else {
 					ts = append(ts, target{array: tn + "." + f.Name(), esort: sortOf(f.Type()), ref: base.T})
 				}
@@ -773,7 +773,7 @@ func (x *Exec) arrayByName(s string) (string, string) {
 			}
 			if isArray(f.Type()) {
 				a := f.Type().Underlying().(*types.Array)
-				return typeName(f.Type()) + ".val", "(Array Int " + sortOf(a.Elem()) + ")"
+				return arrMemName(f.Type()), "(Array Int " + sortOf(a.Elem()) + ")"
 			}
 			return s, sortOf(f.Type())
 		}
